@@ -34,7 +34,7 @@ def specs(tier):
                                     if foreign and (inv or (post, snap) != (1, 0)):
                                         continue  # foreign functools.wraps decorators: on the plain +post shape only
                                     idx = len(out)
-                                    style = ("def", "lambda")[idx % 2]
+                                    style = ("def", "lambda", "adef")[idx % 3] if is_async else ("def", "lambda")[idx % 2]
                                     err = ("default", "cls", "fac", "inst")[(idx // 2) % 4]
                                     out.append({"kind": kind, "is_async": is_async, "dbc": dbc, "levels": levels,
                                                 "style": style, "err": err, "foreign": foreign})
